@@ -57,6 +57,59 @@ def check(run, prog, tier):
                       "for the shift itself (equality), never for a shift 'close to' it - two modes whose Huang-Rhys factors differ "
                       "a little have different overlaps", minimum=2)
     rule_J(run, prog)
+    run.rule("C10-K", "'the number of vibronic states per electronic state is the product of the declared level counts of all modes': "
+                      "a molecule keeps its modes in a list and their number in a counter, and the state generators and the Hamiltonian "
+                      "run over the counter.  Every method that lengthens the list advances the counter in the same block, with no way "
+                      "out of the method in between (list and counter in step)", minimum=1)
+    rule_K(run, prog)
+
+
+def rule_K(run, prog):
+    rid = "C10-K"
+    mol = prog.cls("quantarhei.builders.molecules.Molecule")
+    n = 0
+    for name, f in sorted(mol.methods.items()):
+        if not isinstance(f.node, ast.FunctionDef) or name == "__init__":
+            continue
+        pm = parents_map(f.node)
+        for c in walk_no_nested(f.node):
+            if not (isinstance(c, ast.Call) and norm(c.func) in ("self.modes.append", "self.modes.insert", "self.modes.extend")):
+                continue
+            n += 1
+            prog.consulted.add(f.relpath)
+            st = c
+            while st is not None and not isinstance(st, ast.stmt):
+                st = pm.get(st)
+            blk = None
+            for fld in ("body", "orelse", "finalbody"):
+                b_ = getattr(pm.get(st), fld, None)
+                if isinstance(b_, list) and st in b_:
+                    blk = b_
+            ok, why = False, "the counter self.nmod is not advanced in the block in which the mode is put on the list"
+            if blk is not None:
+                cnt = [k for k, x in enumerate(blk) if (isinstance(x, ast.AugAssign) and norm(x.target) == "self.nmod"
+                                                        and isinstance(x.op, ast.Add))
+                       or (isinstance(x, ast.Assign) and norm(x.targets[0]) == "self.nmod"
+                           and ("len(self.modes)" in norm(x.value) or "self.nmod + 1" in norm(x.value)))]
+                if cnt:
+                    i0 = blk.index(st)
+                    lo, hi = min(i0, cnt[0]), max(i0, cnt[0])
+                    between = blk[lo:hi + 1]
+                    esc = [x for b_ in between for x in ast.walk(b_) if isinstance(x, (ast.Return, ast.Raise))
+                           and not (b_ is blk[lo] and hi == lo)]
+                    # an exit between the two statements (an early return for a special case) leaves them out of step;
+                    # a refusal (raise) before anything was changed is fine, so only exits after the first of the two count
+                    esc = [x for x in esc if x.lineno > blk[lo].lineno]
+                    if esc:
+                        why = "between `%s` and the advance of self.nmod the method can be left (line %d)" % (norm(st)[:40], esc[0].lineno)
+                    else:
+                        ok = True
+            run.obligation(rid, f.short, ok, key="list-and-counter",
+                           message="%s: %s - get_number_of_modes()/get_Mode() then report a mode the state generators and the "
+                                   "Hamiltonian (which run over nmod) do not see" % (f.short, why),
+                           loc=f.loc(st), sample={"method": f.short})
+    if n < 1:
+        raise AnalysisError("C10-K: no method of Molecule puts a mode on self.modes")
 
 
 _TOLERANT = ("isclose", "allclose", "round", "around", "round_", "rint", "floor", "ceil", "trunc", "float32", "float16", "searchsorted",
